@@ -67,8 +67,15 @@ struct Cfg {
   // 'output sources: true' for the distributions that keep a source log
   // (UniformRandom, DiscPatch, Caproni): extra bookkeeping in the dump
   bool source_log = false;
+  // sources that live for about two steps and a distribution that is
+  // updated every half step (otherwise: 0.3 and 0.05 of the total time,
+  // i.e. hardly any birth or death within the 2-8 steps of a run)
+  bool fast_sources = false;
   // --task-plot-rhd N: the photon tasks of the first N steps are kept (not
-  // given back) and written to tasks_NN.txt at the end of the step
+  // given back) and written to tasks_NN.txt at the end of the step. The task
+  // pool must then hold one task per buffer hand-over of the whole step: only
+  // generated for boxes without periodic axes (a packet in a periodic box
+  // wraps around until it is absorbed, the number of hand-overs has no bound)
   int task_plot_rhd = 0;
   int live_mask = 7; // which live outputs are switched on
   int source_type = 0; // 0 SingleStar, 1 AsciiFile, 2 UniformRandom, 3 SingleSupernova, 4 DiscPatch, 5 Caproni (positions on galactic scales: only without radiation)
@@ -148,6 +155,7 @@ struct Cfg {
     j["restart_midway"] = restart_midway;
     j["restart_threads"] = restart_threads;
     j["source_log"] = source_log;
+    j["fast_sources"] = fast_sources;
     j["task_plot_rhd"] = task_plot_rhd;
     j["live_mask"] = live_mask;
     j["source_type"] = source_type;
@@ -220,6 +228,7 @@ struct Cfg {
     c.restart_midway = j.at("restart_midway").as_bool();
     c.restart_threads = (int)j.at("restart_threads").as_int(0);
     c.source_log = j.at("source_log").as_bool();
+    c.fast_sources = j.at("fast_sources").as_bool();
     c.task_plot_rhd = (int)j.at("task_plot_rhd").as_int(0);
     c.live_mask = (int)j.at("live_mask").as_int(7);
     c.source_type = (int)j.at("source_type").as_int(0);
@@ -325,29 +334,29 @@ struct Cfg {
          << vec(p2, "m") << "\n  luminosity: 3.e45 s^-1\n";
     } else if (source_type == 2) {
       o << "PhotonSourceDistribution:\n  type: UniformRandom\n"
-        << sfmt("  source lifetime: %.17g s\n", 0.3 * total_time)
+        << sfmt("  source lifetime: %.17g s\n", (fast_sources ? 1. / 32. : 0.3) * total_time)
         << "  source luminosity: 1.e46 s^-1\n  number of sources: 3\n"
         << "  box anchor: " << vec(anchor, "m") << "\n  box sides: "
         << vec(sides, "m") << "\n  random seed: 42\n"
-        << sfmt("  update interval: %.17g s\n", 0.05 * total_time)
+        << sfmt("  update interval: %.17g s\n", (fast_sources ? 1. / 128. : 0.05) * total_time)
         << "  starting time: 0. s\n  output sources: "
         << (source_log ? "true" : "false") << "\n";
     } else if (source_type == 5) {
       o << "PhotonSourceDistribution:\n  type: Caproni\n"
         << "  number function norm: 0.05\n  UV luminosity norm: 1.\n"
         << "  random seed: 44\n"
-        << sfmt("  update interval: %.17g s\n", 0.05 * total_time)
+        << sfmt("  update interval: %.17g s\n", (fast_sources ? 1. / 128. : 0.05) * total_time)
         << "  starting time: 0. s\n  boost factor: 1.\n"
         << "  output sources: " << (source_log ? "true" : "false") << "\n";
     } else if (source_type == 4) {
       o << "PhotonSourceDistribution:\n  type: DiscPatch\n"
-        << sfmt("  source lifetime: %.17g s\n", 0.3 * total_time)
+        << sfmt("  source lifetime: %.17g s\n", (fast_sources ? 1. / 32. : 0.3) * total_time)
         << "  source luminosity: 1.e46 s^-1\n  average number of sources: 3\n"
         << sfmt("  anchor x: %.17g m\n  sides x: %.17g m\n", anchor[0] + 0.1 * sides[0], 0.8 * sides[0])
         << sfmt("  anchor y: %.17g m\n  sides y: %.17g m\n", anchor[1] + 0.1 * sides[1], 0.8 * sides[1])
         << sfmt("  origin z: %.17g m\n  scaleheight z: %.17g m\n", anchor[2] + 0.5 * sides[2], 0.04 * sides[2])
         << "  random seed: 43\n"
-        << sfmt("  update interval: %.17g s\n", 0.05 * total_time)
+        << sfmt("  update interval: %.17g s\n", (fast_sources ? 1. / 128. : 0.05) * total_time)
         << "  starting time: 0. s\n  output sources: "
         << (source_log ? "true" : "false") << "\n";
     } else if (source_type == 3) {
@@ -416,7 +425,7 @@ struct Cfg {
       << (ntasks > 0 ? ntasks
                      : 18 * total_subgrids() + 6 * packets + 2000 +
                            (task_plot_rhd > 0
-                                ? 60 * packets + 100 * total_subgrids() + 3000
+                                ? 250 * packets + 100 * total_subgrids() + 5000
                                 : 0))
       << "\n";
     o << "  queue size per thread: " << 18 * total_subgrids() + 6 * packets + 2000
